@@ -348,6 +348,8 @@ def pipeline_body(ctx: Ctx, p: dict) -> None:
                 rec["gd"] = left["disparity_map"].data.copy()
                 rec["gm"] = left["validity_mask"].data.astype(int)
                 rec["method"] = left.attrs.get("interpolated_disparity")
+                rec["class_of"] = next((n for n, c in validation.AbstractInterpolation.interpolation_methods_avail.items()
+                                        if c is type(self)), type(self).__name__)
                 calls.append(rec)
                 return res
 
@@ -359,6 +361,13 @@ def pipeline_body(ctx: Ctx, p: dict) -> None:
     finally:
         for cls, orig in saved:
             cls.interpolated_disparity = orig
+    # each validation step fills with the method IT names (left map, then right map), whatever an earlier step or an earlier
+    # run used
+    asked = [c["interpolated_disparity"] for n, c in p["pipeline"] if n.split(".")[0] == "validation" and "interpolated_disparity" in c
+             for _ in (0, 1)]
+    used = [rec["class_of"] for rec in calls]
+    if used != asked:
+        ctx.violation("C14/filled-with-another-method", f"steps ask for {asked} (left, right per step), the fillers run were {used}")
     tot = [0, 0, 0]
     for rec in calls:
         res = judge(ctx, rec["method"], rec["d"], rec["m"], rec["gd"], rec["gm"], rec["off"])
